@@ -1,0 +1,16 @@
+// SPDX-FileCopyrightText: 2026 The Pion community <https://pion.ly>
+// SPDX-License-Identifier: MIT
+
+//go:build verif && verif_c08 && !js
+
+package webrtc
+
+// VerifCurrentDirection exposes getCurrentDirection (property C08 harness).
+func (t *RTPTransceiver) VerifCurrentDirection() RTPTransceiverDirection {
+	return t.getCurrentDirection()
+}
+
+// VerifCurrentRemoteDirection exposes getCurrentRemoteDirection.
+func (t *RTPTransceiver) VerifCurrentRemoteDirection() RTPTransceiverDirection {
+	return t.getCurrentRemoteDirection()
+}
